@@ -16,6 +16,18 @@ pub struct Case {
     pub id: u32,
     /// executions of the one statement, each binding types afresh
     pub execs: Vec<Vec<Param>>,
+    /// before execution k: the shim is asked to PREPARE again and hands out the same id and
+    /// parameter count (a statement cache) - optionally after the client streamed long data for a
+    /// parameter that it then never executed, optionally with a COM_STMT_CLOSE first.  What the
+    /// client binds inline afterwards must still arrive exactly.
+    #[serde(default)]
+    pub pre: Vec<Option<Pre>>,
+}
+
+#[derive(Clone, Debug, Serialize, Deserialize)]
+pub struct Pre {
+    pub abandoned_long_data: Option<(u16, Vec<u8>)>,
+    pub close_first: bool,
 }
 
 impl Prop for C08 {
@@ -24,7 +36,7 @@ impl Prop for C08 {
         "C08"
     }
     fn rule(&self) -> String {
-        "cases = one prepared statement declaring 0-600 parameters (counts biased to 0, 1, 7, 8, 9, 15-17, 63-65, 255-257, 600) executed 1-3 times with the new-params-bound flag set (later executions either bind fresh types or keep the type codes and flip some signedness flags); per parameter a bound type from every code the protocol defines a binary encoding for (27 codes) x unsigned flag; integer bit patterns over full widths, all float bit patterns incl. infinities, byte strings across the length-encoding classes, every legal length form of DATE (0/4), DATETIME/TIMESTAMP (0/4/7/11) and TIME (0/8/12, incl. negative), MYSQL_TYPE_NULL, arbitrary NULL-bitmap patterns. Oracle: the shim's list has the declared length and per entry the bound type code, the exact ValueInner, and - where the Rust target type can represent the value (not the zero date, not negative TIME, not NaN) - the conversion result equals the encoded value. Non-trivial = >= 9 parameters (second bitmap byte) or an unsigned / narrow / temporal type.".into()
+        "cases = one prepared statement declaring 0-600 parameters (counts biased to 0, 1, 7, 8, 9, 15-17, 63-65, 255-257, 600) executed 1-3 times with the new-params-bound flag set (later executions either bind fresh types or keep the type codes and flip some signedness flags); per parameter a bound type from every code the protocol defines a binary encoding for (27 codes) x unsigned flag; integer bit patterns over full widths, all float bit patterns incl. infinities, byte strings across the length-encoding classes, every legal length form of DATE (0/4), DATETIME/TIMESTAMP (0/4/7/11) and TIME (0/8/12, incl. negative), MYSQL_TYPE_NULL, arbitrary NULL-bitmap patterns. One case in five has the shim answer a further PREPARE with the same id and parameter count before some executions (after a COM_STMT_CLOSE or with the id still open, and possibly after long data that the client streamed but never executed): the inline values bound afterwards must arrive all the same. Oracle: the shim's list has the declared length and per entry the bound type code, the exact ValueInner, and - where the Rust target type can represent the value (not the zero date, not negative TIME, not NaN) - the conversion result equals the encoded value. Non-trivial = >= 9 parameters (second bitmap byte) or an unsigned / narrow / temporal type.".into()
     }
     fn assumptions(&self) -> Vec<String> {
         vec!["the recording shim iterates all parameters, as every caller in the repository does".into()]
@@ -64,7 +76,21 @@ impl Prop for C08 {
                 execs.push((0..n).map(|_| gen_param(g)).collect());
             }
         }
-        Case { id: if g.chance(1, 5) { g.raw() } else { 1 }, execs }
+        let pre = if n > 0 && n <= 100 && g.chance(1, 5) {
+            (0..nexec)
+                .map(|_| {
+                    if g.coin() {
+                        let ld = if g.chance(2, 3) { Some((g.below(n as u64) as u16, g.bytes(5))) } else { None };
+                        Some(Pre { abandoned_long_data: ld, close_first: g.chance(1, 4) })
+                    } else {
+                        None
+                    }
+                })
+                .collect()
+        } else {
+            vec![]
+        };
+        Case { id: if g.chance(1, 5) { g.raw() } else { 1 }, execs, pre }
     }
     fn fixed(&self, tier: Tier) -> Vec<Case> {
         // an inline byte-string parameter that makes the COM_STMT_EXECUTE a multi-fragment request,
@@ -83,6 +109,7 @@ impl Prop for C08 {
                     Param { coltype: T_SHORT, unsigned: false, value: PVal::Int(0xfffe) },
                     Param { coltype: T_VAR_STRING, unsigned: false, value: PVal::Bytes(b"after the big one".to_vec()) },
                 ]],
+                pre: vec![],
             });
         }
         v
@@ -92,7 +119,21 @@ impl Prop for C08 {
         let n = case.execs.first().map(|e| e.len()).unwrap_or(0);
         let mut cmds = vec![Cmd::Prepare { text: Blob::text("p") }];
         let mut actions = vec![Action::Prepare(PrepProg::Reply { id: case.id, params: (0..n).map(|i| ColSpec::simple(&format!("p{}", i), T_VAR_STRING, 0)).collect(), cols: vec![] })];
-        for e in &case.execs {
+        let prep = || Action::Prepare(PrepProg::Reply { id: case.id, params: (0..n).map(|i| ColSpec::simple(&format!("p{}", i), T_VAR_STRING, 0)).collect(), cols: vec![] });
+        for (k, e) in case.execs.iter().enumerate() {
+            if let Some(Some(p)) = case.pre.get(k) {
+                ex.class("statement-prepared-anew-under-the-same-id-before-an-execution");
+                if let Some((param, data)) = &p.abandoned_long_data {
+                    ex.class("abandoned-long-data-before-re-prepare");
+                    ex.nontrivial = true;
+                    cmds.push(Cmd::LongData { id: case.id, param: *param, data: Blob::Lit(data.clone()) });
+                }
+                if p.close_first {
+                    cmds.push(Cmd::Close { id: case.id });
+                }
+                cmds.push(Cmd::Prepare { text: Blob::text("p") });
+                actions.push(prep());
+            }
             cmds.push(Cmd::Execute { id: case.id, params: e.clone(), send_types: true, flags: 0, iterations: 1 });
             actions.push(Action::Result(Program::completed(0, 0)));
         }
